@@ -4,15 +4,13 @@ C16  The live terminal view converges to the true result for any refresh schedul
 Model: AgModel/Term.lean (terminal emulator, `Renderer::render`'s tty logic, the live loop over
 stateful downstream operators, the timing of `render_aggregate`'s loop).
 
-* `C16_screen_full`            the full statement: after ANY sequence of frames (each ≤ room lines,
-                               each line ≤ w printable characters) the screen shows exactly the
-                               last frame and blanks elsewhere.  FALSE for the current code:
-* `C16_screen_counterexample`  `¬ C16_screen_full` — the reset sequence erases rows n…1 but never
-                               row 0, so a shorter first line leaves residue (`ab` then `c` shows `cb`).
-* `C16_screen_partial`         the statement under the explicit hypothesis `Growing` (the first line
-                               of a frame is never shorter than the previous frame's), for any cursor
-                               start row and any content above it (no scrolling: the frames fit below
-                               the start row).  `C16_screen_blank` is the blank-screen instance.
+* `C16_screen`                 FULL (since the repair 4c642ce of the reset sequence): after ANY sequence of
+                               frames (each ≤ room lines, each line ≤ w printable characters), from any
+                               cursor start row and any content above it (no scrolling: the frames fit
+                               below the start row), the rows above are untouched, the last frame's lines
+                               follow, everything else is blank.  Before the repair this held only when
+                               the first line never got shorter (the frame's first row was never erased).
+* `C16_screen_full` / `C16_screen_full_holds`   the blank `w × h` terminal instance.
 * `C16_reentrant`              a downstream operator's output for a frame is a function of the
                                incoming table only, whatever state earlier frames left
                                (`liveStage` vs the stateless `applyStage`).
@@ -40,45 +38,12 @@ def FrameOK (w room : Nat) (ls : List Str) : Prop :=
 /-- the text of a frame: every line followed by `\n` (`lines.join("\n") + "\n"`) -/
 def frameText (ls : List Str) : Str := Pretty.unlines ls
 
-/-- length of the first line -/
-def firstLen (ls : List Str) : Nat := (ls.headD []).length
-
-/-- the exclusion hypothesis of the partial theorem: first lines never get shorter -/
-def Growing : List (List Str) → Prop
-  | [] => True
-  | [_] => True
-  | a :: b :: rest => firstLen a ≤ firstLen b ∧ Growing (b :: rest)
-
-instance : (fs : List (List Str)) → Decidable (Growing fs)
-  | [] => isTrue trivial
-  | [_] => isTrue trivial
-  | a :: b :: rest =>
-    have := instDecidableGrowing (b :: rest)
-    inferInstanceAs (Decidable (firstLen a ≤ firstLen b ∧ Growing (b :: rest)))
-
 /-- the full-strength screen property (blank `w × h` terminal, `h − 1` lines per frame) -/
 def C16_screen_full : Prop :=
   ∀ (w h : Nat) (frames : List (List Str)) (last : List Str),
     (∀ f ∈ frames ++ [last], FrameOK w (h - 1) f) →
     ∃ s, screenAfter w h ((frames ++ [last]).map frameText) = some s ∧
       s.rows = expectedRows w h last
-
-/-! ### the counterexample: row 0 is never erased -/
-
-theorem C16_screen_counterexample : ¬ C16_screen_full := by
-  intro h
-  have := h 2 2 [[['a', 'b']]] [['c']] (by
-    intro f hf
-    simp at hf
-    rcases hf with rfl | rfl <;> (refine ⟨by simp, by simp, ?_⟩; intro l hl; simp at hl; subst hl; exact ⟨by simp, by decide⟩))
-  obtain ⟨s, hs, hrows⟩ := this
-  have hev : screenAfter 2 2 ([[['a', 'b']]] ++ [[['c']]] |>.map frameText) =
-      some { w := 2, aboveRev := [['c', 'b']], cur := [' ', ' '], below := [], cc := 0 } := by
-    decide
-  rw [hev] at hs
-  cases hs
-  revert hrows
-  decide
 
 /-! ### helper lemmas about the emulator -/
 
@@ -113,6 +78,13 @@ theorem onlcr_resetSeq (n : Nat) : onlcr (resetSeq n) = resetSeq n := by
   | succ n ih =>
     have : onlcr eraseUp = eraseUp := by decide
     simp [resetSeq, onlcr_append, ih, this]
+
+theorem onlcr_resetBytes (st : Option Nat) : onlcr (resetBytes st) = resetBytes st := by
+  cases st with
+  | none => rfl
+  | some n =>
+    have : onlcr eraseOnly = eraseOnly := by decide
+    simp [resetBytes, onlcr_append, onlcr_resetSeq, this]
 
 /-- the text of a frame as the terminal receives it -/
 theorem onlcr_unlines (ls : List Str) (rest : Str) (h : ∀ l ∈ ls, ∀ c ∈ l, isPrintable c = true) :
@@ -191,14 +163,6 @@ theorem feed_line (w : Nat) (l : Str) (A : List Str) (cur0 b : Str) (B : List St
 theorem overwrite_blank (w : Nat) (l : Str) : overwrite (blankRow w) l = padRow w l := by
   simp [overwrite, blankRow, padRow, List.drop_replicate]
 
-/-- overwriting a padded shorter line with a longer one leaves no residue -/
-theorem overwrite_padRow (w : Nat) (p l : Str) (hpl : p.length ≤ l.length) :
-    overwrite (padRow w p) l = padRow w l := by
-  simp only [overwrite, padRow]
-  rw [List.drop_append]
-  simp [List.drop_eq_nil_of_le hpl, List.drop_replicate]
-  omega
-
 theorem padRow_length (w : Nat) (l : Str) (h : l.length ≤ w) : (padRow w l).length = w := by
   simp [padRow]; omega
 
@@ -260,88 +224,85 @@ def after (w : Nat) (above : List Str) (room : Nat) (prev : List Str) : Screen :
   { w := w, aboveRev := (prev.map (padRow w)).reverse ++ above.reverse, cur := blankRow w,
     below := List.replicate (room - prev.length) (blankRow w), cc := 0 }
 
+/-- the renderer's reset state matches the frame on screen: nothing printed yet, or the previous
+frame's line count -/
+def Synced (st : Option Nat) (prev : List Str) : Prop :=
+  (st = none ∧ prev = []) ∨ st = some prev.length
+
+/-- the whole reset sequence (walk up erasing, then erase the first row) leaves every row from the
+frame's first row on blank, with the cursor on that row -/
+theorem feed_resetBytes (w : Nat) (above : List Str) (room : Nat) (prev : List Str) (st : Option Nat)
+    (rest : Str) (hsync : Synced st prev) (hprev : prev.length ≤ room) :
+    feedM (after w above room prev) .ground (resetBytes st ++ rest) =
+      feedM { w := w, aboveRev := above.reverse, cur := blankRow w,
+              below := List.replicate room (blankRow w), cc := 0 } .ground rest := by
+  rcases hsync with ⟨rfl, rfl⟩ | rfl
+  · simp [resetBytes, after]
+  · cases prev with
+    | nil =>
+      simp [resetBytes, resetSeq, eraseOnly, after, feedM, step, esc, eraseLine]
+    | cons p ps =>
+      have hrev : ((p :: ps).map (padRow w)).reverse ++ above.reverse =
+          (ps.map (padRow w)).reverse ++ padRow w p :: above.reverse := by simp
+      have hl : (p :: ps).length = (ps.map (padRow w)).reverse.length + 1 := by simp
+      simp only [resetBytes, after, hrev, List.append_assoc]
+      rw [hl, feed_reset w _ (padRow w p) (blankRow w) above.reverse _ _]
+      simp only [eraseOnly, List.cons_append, List.nil_append, feedM, step, esc, eraseLine]
+      simp only [List.length_reverse, List.length_map, List.replicate_append_replicate]
+      have : ps.length + 1 + (room - (ps.length + 1)) = room := by simp at hprev; omega
+      simp [this]
+
 /-- drawing one more frame -/
-theorem feed_frame (w : Nat) (above : List Str) (room : Nat) (prev f : List Str) (rest : Str)
-    (hprev : prev.length ≤ room) (hprevOK : ∀ l ∈ prev, LineOK w l)
-    (hf : FrameOK w room f) (hgrow : firstLen prev ≤ firstLen f) :
-    feedM (after w above room prev) .ground (onlcr (resetSeq prev.length ++ frameText f ++ rest)) =
+theorem feed_frame (w : Nat) (above : List Str) (room : Nat) (prev f : List Str) (st : Option Nat) (rest : Str)
+    (hsync : Synced st prev) (hprev : prev.length ≤ room) (hf : FrameOK w room f) :
+    feedM (after w above room prev) .ground (onlcr (resetBytes st ++ frameText f ++ rest)) =
       feedM (after w above room f) .ground (onlcr rest) := by
   obtain ⟨hne, hlen, hok⟩ := hf
   obtain ⟨l, ls, rfl⟩ := List.exists_cons_of_ne_nil hne
-  -- after the reset sequence: cursor on the frame's first row (not erased), blanks below
-  have hreset : ∃ p0 : Str, p0.length ≤ l.length ∧
-      feedM (after w above room prev) .ground (onlcr (resetSeq prev.length ++ frameText (l :: ls) ++ rest)) =
-      feedM { w := w, aboveRev := above.reverse, cur := padRow w p0,
-              below := List.replicate room (blankRow w), cc := 0 } .ground
-        (onlcr (frameText (l :: ls) ++ rest)) := by
-    cases prev with
-    | nil =>
-      refine ⟨[], by simp, ?_⟩
-      simp [after, resetSeq, padRow, blankRow]
-    | cons p ps =>
-      refine ⟨p, by simpa [firstLen] using hgrow, ?_⟩
-      rw [List.append_assoc, onlcr_append, onlcr_resetSeq]
-      have hrev : ((p :: ps).map (padRow w)).reverse ++ above.reverse =
-          (ps.map (padRow w)).reverse ++ padRow w p :: above.reverse := by simp
-      simp only [after, hrev]
-      have hl : (p :: ps).length = (ps.map (padRow w)).reverse.length + 1 := by simp
-      rw [hl, feed_reset w _ (padRow w p) (blankRow w) above.reverse _ _]
-      congr 2
-      simp only [List.length_reverse, List.length_map, List.replicate_append_replicate]
-      congr 1
-      simp at hprev
-      omega
-  obtain ⟨p0, hp0, hreset⟩ := hreset
-  rw [hreset]
-  have hp0w : p0.length ≤ w := Nat.le_trans hp0 (hok l (by simp)).1
+  rw [List.append_assoc, onlcr_append, onlcr_resetBytes]
+  rw [feed_resetBytes w above room prev st _ hsync hprev]
   rw [show frameText (l :: ls) = Pretty.unlines (l :: ls) from rfl]
-  rw [feed_lines w ls l above.reverse (padRow w p0) room rest hok (by simpa using hlen)
-    (padRow_length w p0 hp0w)]
-  rw [overwrite_padRow w p0 l hp0]
+  rw [feed_lines w ls l above.reverse (blankRow w) room rest hok (by simpa using hlen) (by simp [blankRow])]
+  rw [overwrite_blank]
   simp [after]
 
 /-- any number of frames -/
-theorem feed_frames (w : Nat) (above : List Str) (room : Nat) : ∀ (frames : List (List Str)) (prev : List Str),
-    prev.length ≤ room → (∀ l ∈ prev, LineOK w l) → (∀ f ∈ frames, FrameOK w room f) →
-    Growing (prev :: frames) →
+theorem feed_frames (w : Nat) (above : List Str) (room : Nat) : ∀ (frames : List (List Str)) (prev : List Str)
+    (st : Option Nat), Synced st prev → prev.length ≤ room → (∀ f ∈ frames, FrameOK w room f) →
     feedM (after w above room prev) .ground
-        (onlcr (ttyBytes { resetLines := prev.length } (frames.map frameText))) =
+        (onlcr (ttyBytes { resetLines := st } (frames.map frameText))) =
       some (after w above room ((prev :: frames).getLast (by simp))) := by
   intro frames
   induction frames with
   | nil =>
-    intro prev _ _ _ _
+    intro prev st _ _ _
     simp [ttyBytes, onlcr, feedM]
   | cons f fs ih =>
-    intro prev hprev hprevOK hfs hgrow
+    intro prev st hsync hprev hfs
     have hf := hfs f (by simp)
     simp only [List.map_cons, ttyBytes, renderTty]
     have hcount : countNl (frameText f) = f.length := countNl_unlines f (fun l hl => (hf.2.2 l hl).2)
     rw [hcount]
-    rw [feed_frame w above room prev f _ hprev hprevOK hf hgrow.1]
-    rw [ih f hf.2.1 hf.2.2 (fun g hg => hfs g (by simp [hg])) hgrow.2]
+    rw [feed_frame w above room prev f st _ hsync hprev hf]
+    rw [ih f (some f.length) (Or.inr rfl) hf.2.1 (fun g hg => hfs g (by simp [hg]))]
     simp [List.getLast_cons]
 
-/-! ### the partial theorem -/
+/-! ### the screen theorem -/
 
-/-- **C16_screen_partial.**  Start with the cursor at the beginning of a row, any content `above`
-it and `room + 1` blank rows from there on.  For every sequence of frames that fit
-(`FrameOK w room`) and whose first lines never get shorter (`Growing`), after the last write the
-rows above are untouched, the last frame's lines follow, everything else is blank, and the
-cursor is at the start of the row after the frame. -/
-theorem C16_screen_partial (w : Nat) (above : List Str) (room : Nat)
+/-- **C16_screen.**  Start with the cursor at the beginning of a row, any content `above` it and
+`room + 1` blank rows from there on.  For EVERY sequence of frames that fit (`FrameOK w room`),
+after the last write the rows above are untouched, the last frame's lines follow, everything else
+is blank, and the cursor is at the start of the row after the frame: no residue of earlier
+frames, whatever they were. -/
+theorem C16_screen (w : Nat) (above : List Str) (room : Nat)
     (frames : List (List Str)) (last : List Str)
-    (hok : ∀ f ∈ frames ++ [last], FrameOK w room f) (hgrow : Growing (frames ++ [last])) :
+    (hok : ∀ f ∈ frames ++ [last], FrameOK w room f) :
     ∃ s, display (Screen.startAt w above room) (ttyBytes {} ((frames ++ [last]).map frameText)) = some s ∧
       s.rows = above ++ last.map (padRow w) ++ List.replicate (room + 1 - last.length) (blankRow w) ∧
       s.cr = above.length + last.length ∧ s.cc = 0 := by
   have hstart : Screen.startAt w above room = after w above room [] := by
     simp [Screen.startAt, after]
-  have hg : Growing ([] :: (frames ++ [last])) := by
-    cases h : frames ++ [last] with
-    | nil => simp at h
-    | cons a rest => rw [h] at hgrow; exact ⟨by simp [firstLen], hgrow⟩
-  have := feed_frames w above room (frames ++ [last]) [] (by simp) (by simp) hok hg
+  have := feed_frames w above room (frames ++ [last]) [] none (Or.inl ⟨rfl, rfl⟩) (by simp) hok
   have hl : ([] :: (frames ++ [last])).getLast (by simp) = last := by
     rw [List.getLast_cons (by simp)]; simp
   rw [hl] at this
@@ -358,12 +319,16 @@ theorem C16_screen_partial (w : Nat) (above : List Str) (room : Nat)
   · simp [after, Screen.cr]; omega
   · simp [after]
 
-/-- the blank `w × h` terminal of `C16_screen_full`, under the `Growing` hypothesis -/
-theorem C16_screen_blank (w h : Nat) (hh : 1 ≤ h) (frames : List (List Str)) (last : List Str)
-    (hok : ∀ f ∈ frames ++ [last], FrameOK w (h - 1) f) (hgrow : Growing (frames ++ [last])) :
-    ∃ s, screenAfter w h ((frames ++ [last]).map frameText) = some s ∧
-      s.rows = expectedRows w h last := by
-  obtain ⟨s, hs, hrows, _, _⟩ := C16_screen_partial w [] (h - 1) frames last hok hgrow
+/-- **C16_screen_full_holds**: the blank `w × h` terminal -/
+theorem C16_screen_full_holds : C16_screen_full := by
+  intro w h frames last hok
+  have h1 : 1 ≤ h := by
+    have := (hok last (by simp))
+    have h2 := this.2.1
+    have h3 : last.length ≠ 0 := by
+      intro e; exact this.1 (List.length_eq_zero_iff.mp e)
+    omega
+  obtain ⟨s, hs, hrows, _, _⟩ := C16_screen w [] (h - 1) frames last hok
   refine ⟨s, ?_, ?_⟩
   · simpa [screenAfter, Screen.startAt, Screen.blank] using hs
   · rw [hrows]
@@ -371,20 +336,19 @@ theorem C16_screen_blank (w h : Nat) (hh : 1 ≤ h) (frames : List (List Str)) (
     congr 1
     omega
 
-/-- non-vacuity: three frames satisfying the hypotheses (a table that grows, then `No data` is
-NOT allowed — the first line would shrink) -/
-example : (∀ f ∈ [[['N', 'o']], [['k', ' ', 'n'], ['-', '-', '-'], ['a', ' ', '1']]] ++ [[['k', ' ', 'n'], ['-', '-', '-']]],
-    FrameOK 4 3 f) ∧ Growing ([[['N', 'o']], [['k', ' ', 'n'], ['-', '-', '-'], ['a', ' ', '1']]] ++ [[['k', ' ', 'n'], ['-', '-', '-']]]) := by
-  constructor
-  · intro f hf
-    simp at hf
-    rcases hf with rfl | rfl | rfl <;>
-      (refine ⟨by simp, by simp, ?_⟩; intro l hl; simp at hl;
-       first
-        | (subst hl; exact ⟨by simp, by decide⟩)
-        | (rcases hl with rfl | rfl <;> exact ⟨by simp, by decide⟩)
-        | (rcases hl with rfl | rfl | rfl <;> exact ⟨by simp, by decide⟩))
-  · decide
+/-- the former counterexample (`ab`, then `c`, on a 2 × 2 screen left `cb`) is now clean -/
+example : (screenAfter 2 2 ([[['a', 'b']], [['c']]].map frameText)).map Screen.rows =
+    some [['c', ' '], [' ', ' ']] := by decide
+
+/-- a table, then `No data`: frames whose first line shrinks are covered -/
+example : ∀ f ∈ [[['k', ' ', 'n'], ['-', '-', '-'], ['a', ' ', '1']]] ++ [[['N', 'o']]], FrameOK 4 3 f := by
+  intro f hf
+  simp at hf
+  rcases hf with rfl | rfl <;>
+    (refine ⟨by simp, by simp, ?_⟩; intro l hl; simp at hl;
+     first
+      | (subst hl; exact ⟨by simp, by decide⟩)
+      | (rcases hl with rfl | rfl | rfl <;> exact ⟨by simp, by decide⟩))
 
 /-! ### re-entrancy of the downstream operators -/
 
